@@ -24,7 +24,7 @@ pub struct KeyOnce { pub k: Option<u64> }
 impl KeyOnce { #[verifier::external_body] pub fn as_ref(&self) -> (r: Option<&u64>) ensures r.is_some() == self.k.is_some() { unimplemented!() } }
 pub struct BuilderT { pub b: u8 }
 pub struct CtxT { pub c: u8 }
-pub struct InflightsT { pub takes: Ghost<Seq<(u64, Option<usize>)>> }
+pub struct InflightsT { pub takes: Ghost<Seq<(u64, Option<usize>)>>, pub failed: Ghost<nat>, pub fallbacks: Ghost<nat> }
 pub struct NotifierT { }
 impl NotifierT {
     /// a waiter of a cancelled fetch is answered with an error (never with a value, never left unanswered by this loop)
@@ -43,7 +43,7 @@ impl InflightsT {
     /// `inflights.lock().take(hash, key, id)`: logged; the answer (the waiters, if the registration is still this task's) is arbitrary
     #[verifier::external_body]
     pub fn take(&mut self, hash: u64, key: &u64, id: Option<usize>) -> (r: Option<Vec<NotifierT>>)
-        ensures final(self).takes@ == old(self).takes@.push((hash, id)),
+        ensures final(self).takes@ == old(self).takes@.push((hash, id)), final(self).failed == old(self).failed, final(self).fallbacks == old(self).fallbacks,
     { unimplemented!() }
 }
 /// the cache as an effect log: what the fetch task inserts
@@ -74,14 +74,18 @@ impl RawFetch {
     fn try_set_required(required_fetch_builder: &mut Option<BuilderT>, ctx: &mut CtxT, id: usize, hash: u64, key: &u64, inflights: &mut InflightsT,
                         res_no_fetch: Result<Option<u64>>) -> (r: Try)
         ensures final(inflights).takes@.len() >= old(inflights).takes@.len(),
+            // the fallback to the required (origin) fetch was taken once; nobody was failed
+            final(inflights).fallbacks@ == old(inflights).fallbacks@ + 1, final(inflights).failed == old(inflights).failed,
     { unimplemented!() }
     /// error path: waiters are taken with the leader's own id (never None: that would steal a newer registration)
     #[verifier::external_body]
     fn handle_error(e: Error, id: usize, hash: u64, key: &u64, inflights: &mut InflightsT) -> (r: Try)
         ensures final(inflights).takes@ == old(inflights).takes@.push((hash, Some(id))),
+            // the waiters were failed with the error
+            final(inflights).failed@ == old(inflights).failed@ + 1, final(inflights).fallbacks == old(inflights).fallbacks,
     { unimplemented!() }
 
-//@region foyer-memory/src/raw.rs :: impl~Future for RawFetch<E, S, I, C>/fn poll name=poll_fetch_optional start=/RawFetchState::FetchOptional \{[^}]*\} =>/ arm=1 sub=@\*this\.state@this.state@ sub=@this\.key\.as_ref\(\)@this.key.as_ref()@ sub=@handle_target\(target, this\.key, this\.cache,@handle_target(target, &mut this.key, &mut this.cache,@ sub=@required_fetch_builder, this\.ctx, \*this\.id, \*this\.hash, this\.key\.as_ref\(\)\.unwrap\(\), &this\.inflights,@required_fetch_builder, &mut this.ctx, this.id, this.hash, this.key.as_ref().unwrap(), &mut this.inflights,@
+//@region foyer-memory/src/raw.rs :: impl~Future for RawFetch<E, S, I, C>/fn poll name=poll_fetch_optional start=/RawFetchState::FetchOptional \{[^}]*\} =>/ arm=1 sub=@\*this\.state@this.state@ sub=@this\.key\.as_ref\(\)@this.key.as_ref()@ sub=@handle_target\(target, this\.key, this\.cache,@handle_target(target, &mut this.key, &mut this.cache,@ sub=@required_fetch_builder, this\.ctx, \*this\.id, \*this\.hash, this\.key\.as_ref\(\)\.unwrap\(\), &this\.inflights,@required_fetch_builder, &mut this.ctx, this.id, this.hash, this.key.as_ref().unwrap(), &mut this.inflights,@ subopt=@handle_error\(e, \*this\.id, \*this\.hash, this\.key\.as_ref\(\)\.unwrap\(\), this\.inflights\)@handle_error(e, this.id, this.hash, this.key.as_ref().unwrap(), &mut this.inflights)@
 //@head
     #[verifier::exec_allows_no_decreases_clause]
     fn poll_fetch_optional(this: &mut ThisT, optional_fetch: &mut OptFutT, required_fetch_builder: &mut Option<BuilderT>, cx: &mut Cx) -> (r: Poll<()>)
@@ -89,11 +93,14 @@ impl RawFetch {
         ensures
             // C11: once the in-flight entry was taken by an explicit insert, the late (disk) fetch result is abandoned
             old(this).close.v ==> final(this).cache.inserts@ == old(this).cache.inserts@ && (r is Ready), // @label closed_fetch_abandons_its_result
+            // C06: the optional (disk) lookup never fails the waiters by itself: whatever it answers that is not an entry -- an
+            // error included -- goes to the fallback, which runs the origin fetch when the leader or a joined caller has one
+            final(this).inflights.failed == old(this).inflights.failed, // @label a_failed_lookup_falls_back_to_the_origin_fetch_instead_of_failing_the_waiters
 //@prologue
         loop
-            invariant_except_break this.close.v == old(this).close.v, this.key.k.is_some(),
+            invariant_except_break this.close.v == old(this).close.v, this.key.k.is_some(), this.inflights.failed == old(this).inflights.failed,
                 old(this).close.v ==> this.cache.inserts@ == old(this).cache.inserts@,
-            ensures !old(this).close.v,
+            ensures !old(this).close.v, this.inflights.failed == old(this).inflights.failed,
         {
 //@tail
             break;
